@@ -73,11 +73,12 @@ class SQLLineageApp:
                     request_body_size = int(environ["CONTENT_LENGTH"])
                     request_body = environ["wsgi.input"].read(request_body_size)
                     payload = json.loads(request_body)
-                    for param in ["d", "f"]:
-                        if param in payload and not str(
-                            Path(payload[param]).absolute()
-                        ).startswith(str(Path(self.root_path).absolute())):
-                            return self.handle_403(start_response)
+                    requested = [Path(payload[p]) for p in ["d", "f"] if p in payload]
+                    if path_info == "/directory" and payload.get("f"):
+                        # directory handler lists the folder containing the file
+                        requested.append(Path(payload["f"]).parent)
+                    if not all(self.is_under_root(path) for path in requested):
+                        return self.handle_403(start_response)
                     data = self.routes[path_info](payload)
                     return self.handle_200_json(start_response, data)
                 else:
@@ -104,6 +105,12 @@ class SQLLineageApp:
             return self.handle_404(start_response)
         except (SQLLineageException, RuntimeError) as e:
             return self.handle_400(start_response, str(e))
+
+    def is_under_root(self, path: Path) -> bool:
+        """
+        whether path, with '.', '..' and symlinks resolved, is root_path itself or lies inside it
+        """
+        return path.resolve().is_relative_to(Path(self.root_path).resolve())
 
     @staticmethod
     def handle_200_text(start_response, mimetype, text) -> list[bytes]:
